@@ -18,18 +18,18 @@ NOTE = "trusted: the simulator's loop semantics (FIFO call_soon, I/O before time
 CHECKS = {
     # id: (engine, level, text, design_ref)
     "C03": ("pair", "exploration", "corruption-fault injection into a live two-node scenario and into a SimpleService endpoint: corrupted copies of valid messages, foreign SOME/IP messages and arbitrary bytes from known and unknown senders on both channels, also exactly at timer deadlines; no exception may reach the loop, and when every injected message is non-decodable the run must equal, event for event and in final discovery / subscription / session state, the twin run without them. Every injected byte string also goes through the four decoders with a step watchdog, and the accept sets are compared with the reference decoder (that half is input generation riding on the corruptor)", "DESIGN.md §6 C03"),
-    "C04": ("pair", "exploration", "two or three complete real stacks on the simulated network; stop / start / crash / restart of either side at random instants and at the recorded deadlines and transmission instants of a fault-free pre-run, loss / duplication / delay / partition windows, clock drift, multicast loopback; bounded liveness (CONVERGED within TTL + period + slack after the last disturbance) plus the complete C05 and C06 oracles on every incarnation during the whole run; a separate class covers infinite TTLs without refresh on a lossless network", "DESIGN.md §6 C04"),
+    "C04": ("pair", "exploration", "two or three complete real stacks on the simulated network; stop / start / crash / restart of either side at random instants and at the recorded deadlines and transmission instants of a fault-free pre-run, loss / duplication / delay / partition windows, failing sendto() system calls reported through error_received(), clock drift, multicast loopback; bounded liveness (CONVERGED within TTL + period + slack after the last disturbance) plus the complete C05 and C06 oracles on every incarnation during the whole run; a separate class covers infinite TTLs without refresh on a lossless network", "DESIGN.md §6 C04"),
     "C05": ("single", "exploration", "complete sweep of all histories up to length 3 (quick) / 4 (thorough) over a 21-symbol alphabet that places messages at, just before and just after every TTL deadline, plus random histories of 5-40 steps; every run judged by ALT / TRUTH / REBOOT-ORDER / FILTER against the store model", "DESIGN.md §6 C05"),
     "C06": ("single", "exploration", "complete sweep of all histories up to length 3 / 4 over a 24-symbol alphabet (Subscribe, StopSubscribe, reboot evidence, listener decisions, service stop/start, deadline-aligned instants) plus random histories; judged by ALT / TRUTH / NO-REJECTED / ACK-HELD / REBOOT-ORDER", "DESIGN.md §6 C06"),
     "C08": ("single", "exploration", "one destination is walked through more than 2 x 65535 transmissions (both wrap-arounds) while the group and other peers, which wrap at other moments, and empty sends are interleaved by the seed; a second class lets a real announcer with 1 ms cyclic offers answer rogue traffic at three rates for 70-140 simulated seconds; every SD message at the transport is decoded and compared with the per-destination counter model", "DESIGN.md §6 C08"),
     "C09": ("single", "exploration", "sweep of add / refresh / stop / remove-all / re-add histories with refreshes at deadline -100us, -res/4, exact, +res/4, +100us and clocks past 0xFFFFFF s, for both TimedStore users, plus random histories; every expiry notification is timed against the model deadline", "DESIGN.md §6 C09"),
     "C07": ("single", "exploration", "directed sweep of the reboot-detection rule over the 12-symbol boundary alphabet: all first messages, all 144 ordered pairs and 1728 triples on one key, 5184 interference cases with another sender / the other channel, plus random walks of up to 2000 messages with foreign, undecodable, coalesced and duplicated datagrams; each detection is observed at the three parts through recording wrappers on the instances", "DESIGN.md §6 C07"),
-    "C10": ("single", "exploration", "random timing configurations and operation sequences placed at, just before and just after every timer deadline and transmission instant of the run so far; the decoded offer timeline at the transport is judged by interval arithmetic from the property text", "DESIGN.md §6 C10"),
+    "C10": ("single", "exploration", "random timing configurations and operation sequences placed at, just before and just after every timer deadline and transmission instant of the run so far; windows in which sendto() fails and is reported through error_received(); the decoded offer timeline at the transport is judged by interval arithmetic from the property text", "DESIGN.md §6 C10"),
     "C11": ("single", "exploration", "random multi-entry Subscribe / StopSubscribe messages against servers in every lifecycle state with scripted listener decisions; the exact per-sender Ack/Nack sequence is predicted by the subscription model; multicast Subscribes are judged by an exact twin run", "DESIGN.md §6 C11"),
     "C12": ("single", "exploration", "FindService entries over all wildcard combinations at instants aligned with the offer lifecycle, unicast and multicast; every unicast offer must match a pending request inside its timing window and every request to a ready instance must be answered", "DESIGN.md §6 C12"),
     "C13": ("single", "exploration", "1-4 watched filters, timing configurations incl. min=max windows and forced uniform extremes, rogue offers / stop-offers / short-TTL offers / reboots placed at and around every round instant; each round's entry set, content, destination and timing are predicted by an interval store model", "DESIGN.md §6 C13"),
     "C14": ("single", "exploration", "random subscribe / stop-subscribe / start / stop sequences over 4 eventgroups x 3 servers with calls placed in the same instant, at and around the refresh ticks, in I/O and timer phase; a model server per destination applies the decoded entries in transmission order and must mirror the requested set at every idle point", "DESIGN.md §6 C14"),
-    "C15": ("single", "exploration", "every queue_send call is recorded on the announcer instance and matched, per destination and in order, with the decoded entries leaving the transport; bursts up to 40 entries and requests placed exactly at collector deadlines", "DESIGN.md §6 C15"),
+    "C15": ("single", "exploration", "every queue_send call is recorded on the announcer instance and matched, per destination and in order, with the decoded entries leaving the transport; bursts up to 130 entries, requests placed exactly at collector deadlines, and windows in which sendto() fails and is reported through error_received()", "DESIGN.md §6 C15"),
     "C16": ("svc", "exploration", "requests arrive as datagrams (single, coalesced, duplicated, with undecodable tails, unicast and multicast) at a SimpleService that concurrently serves subscriptions and 50 ms cyclic notifications; every reply at the transport is compared with the decision chain of the property text. The schedule adds little here - each message is handled synchronously - which DESIGN.md says plainly", "DESIGN.md §6 C16"),
     "C17": ("svc", "exploration", "a SimpleService with an explicit and a cyclic eventgroup behind a real SD stack; rogue clients subscribe / stop / restart / let TTLs expire while values change and explicit rounds are requested inside the seeded resolver latency of pending rounds; datagrams are matched (bipartite) against initial / explicit / cyclic expectations, payloads against the value history, session ids per destination", "DESIGN.md §6 C17"),
     "C18": ("stream", "fault_enumeration", "for nine short streams (valid, and with each kind of rejected header) every single cut position, every pair of cut positions, and EOF / reset at every byte position are enumerated completely; beyond that random streams of 0-8 messages with payloads up to 4096 bytes, random and all-1-byte chunkings, both SOMEIPHeader.read and SOMEIPReader; the reader's output is compared with datagram decoding and with the reference decoder", "DESIGN.md §6 C18"),
